@@ -562,15 +562,34 @@ func WaitUntil(obj any, site string, cond func() bool) {
 	for !cond() {
 		s.waitOn(t, obj, site)
 	}
+	s.acquire(t, obj)
 }
 
-// Notify makes tasks waiting on obj eligible again.
+// Notify makes tasks waiting on obj eligible again. It is also a release on
+// obj for the race oracle (WaitUntil's return is the matching acquire).
 func Notify(obj any) {
 	s := active()
 	if s == nil {
 		return
 	}
+	if t := s.running; t != nil {
+		s.release(t, obj)
+	}
 	s.notify(obj)
+}
+
+// SyncPoint is harness-level synchronisation the race oracle must know about:
+// the caller acquires everything released on obj so far and releases its own
+// history on it (like an atomic read-modify-write on obj).
+func SyncPoint(obj any) {
+	s := active()
+	if s == nil {
+		return
+	}
+	if t := s.running; t != nil {
+		s.acquire(t, obj)
+		s.release(t, obj)
+	}
 }
 
 // ------------------------------------------------------- instrumentation API
